@@ -13,3 +13,6 @@ register(Unit(P, "CAS-MAP/_write_hint_at_commit_point", cp.h_write_hint(True, Fa
               functions=[f"{cp.MM}:MetadataManager._write_hint_at_commit_point"], replay=cp._replay_mm_commit))
 from contracts import C19_locks as _c19
 register(Unit(P, "FENCE/S3LockProviderBase.is_held", _c19.h_is_held_s3, functions=["lock_provider:S3LockProviderBase.is_held"], replay=_c19._replay_s3lock, reg_factory=_c19.registry))
+
+from contracts import helpers as _HLP  # noqa: E402
+_HLP.register_under("C08", ["HELPER/metadata-file-io"])
